@@ -6,7 +6,7 @@ use super::*;
 use crate::boot_sector::BiosParameterBlock;
 use crate::dir_entry::verif_kani::{any_sfn_data, d_accessed, d_created, d_modified, ed_data, ed_dirty, ed_new, ed_pos};
 use crate::dir_entry::{DirEntryEditor, DirFileEntryData};
-use crate::fs::verif_kani::{bpb_fat12, bpb_fat16, bpb_fat32, bpb_fat32_huge, cur_flags, mk_fs_plain, opts, stub_alloc_cluster};
+use crate::fs::verif_kani::{bpb_fat12, bpb_fat16, bpb_fat32, bpb_fat32_huge, cur_flags, mk_fs_plain, opts, stub_alloc_cluster, stub_no_zeros, stub_zeros_contract};
 use crate::fs::{FatType, FsStatusFlags, LossyOemCpConverter};
 use crate::verif_common::*;
 
@@ -306,26 +306,31 @@ fn write_contract(bpb: BiosParameterBlock, is_dir: bool, case: u8) {
                     assert!(d.log[0] == Op::Seek(0x25) || d.log[0] == Op::Seek(0x41));
                     assert!(matches!(d.log[1], Op::Write(_, 1)));
                 }
-                // last two device calls: the data seek + write, at the address of the byte at `offset`
+                // last two device calls: the data seek + write, at the address of the byte at `offset` in the
+                // cluster the cursor ends up in (the device writes the whole request here, so n = maxn > 0)
                 assert!(d.nlog >= 2 && !d.overflow);
-                let c = match d.log[d.nlog - 2] {
-                    Op::Seek(a) => {
-                        assert!(d.log[d.nlog - 1] == Op::Write(a, maxn as usize));
-                        // recover the cluster from the address and check it is the file's
-                        let rel = a - addr(&bpb, 2, 0);
-                        assert!(rel % cs as u64 == off_in as u64);
-                        (rel / cs as u64) as u32 + 2
-                    }
-                    _ => {
+                assert!(n as u64 == maxn);
+                let c = match f.current_cluster {
+                    Some(c) => c,
+                    None => {
                         assert!(false);
-                        0
+                        2
                     }
                 };
                 assert!(c >= 2 && c < max);
+                let a = addr(&bpb, c, off_in);
+                assert!(d.log[d.nlog - 2] == Op::Seek(a));
+                assert!(d.log[d.nlog - 1] == Op::Write(a, maxn as usize));
+                // ... and that cluster is the file's: the current one, its successor in the table, the first one,
+                // or (only when the chain has ended) a freshly allocated one
                 if off_in != 0 {
                     assert!(Some(c) == st.current);
-                } else if st.current.is_none() && st.first.is_some() {
-                    assert!(Some(c) == st.first);
+                } else if st.current.is_none() {
+                    if st.first.is_some() {
+                        assert!(Some(c) == st.first);
+                    }
+                } else if let Some(nx) = last_fat_next(&d, st.current.unwrap()) {
+                    assert!(c == nx);
                 }
                 if n > 0 {
                     assert!(f.offset == st.offset + n as u32);
@@ -370,6 +375,7 @@ fn write_contract(bpb: BiosParameterBlock, is_dir: bool, case: u8) {
 #[kani::proof]
 #[kani::unwind(12)]
 #[kani::stub(crate::table::alloc_cluster, stub_alloc_cluster)]
+#[kani::stub(crate::fs::write_zeros, stub_no_zeros)]
 fn write_contract_fat12_c0() {
     write_contract(bpb_fat12(), false, 0);
 }
@@ -380,6 +386,7 @@ fn write_contract_fat12_c0() {
 #[kani::proof]
 #[kani::unwind(12)]
 #[kani::stub(crate::table::alloc_cluster, stub_alloc_cluster)]
+#[kani::stub(crate::fs::write_zeros, stub_no_zeros)]
 fn write_contract_fat12_c1() {
     write_contract(bpb_fat12(), false, 1);
 }
@@ -390,6 +397,7 @@ fn write_contract_fat12_c1() {
 #[kani::proof]
 #[kani::unwind(12)]
 #[kani::stub(crate::table::alloc_cluster, stub_alloc_cluster)]
+#[kani::stub(crate::fs::write_zeros, stub_no_zeros)]
 fn write_contract_fat12_c2() {
     write_contract(bpb_fat12(), false, 2);
 }
@@ -400,6 +408,7 @@ fn write_contract_fat12_c2() {
 #[kani::proof]
 #[kani::unwind(12)]
 #[kani::stub(crate::table::alloc_cluster, stub_alloc_cluster)]
+#[kani::stub(crate::fs::write_zeros, stub_no_zeros)]
 fn write_contract_fat16_c0() {
     write_contract(bpb_fat16(), false, 0);
 }
@@ -410,6 +419,7 @@ fn write_contract_fat16_c0() {
 #[kani::proof]
 #[kani::unwind(12)]
 #[kani::stub(crate::table::alloc_cluster, stub_alloc_cluster)]
+#[kani::stub(crate::fs::write_zeros, stub_no_zeros)]
 fn write_contract_fat16_c1() {
     write_contract(bpb_fat16(), false, 1);
 }
@@ -420,6 +430,7 @@ fn write_contract_fat16_c1() {
 #[kani::proof]
 #[kani::unwind(12)]
 #[kani::stub(crate::table::alloc_cluster, stub_alloc_cluster)]
+#[kani::stub(crate::fs::write_zeros, stub_no_zeros)]
 fn write_contract_fat16_c2() {
     write_contract(bpb_fat16(), false, 2);
 }
@@ -430,6 +441,7 @@ fn write_contract_fat16_c2() {
 #[kani::proof]
 #[kani::unwind(12)]
 #[kani::stub(crate::table::alloc_cluster, stub_alloc_cluster)]
+#[kani::stub(crate::fs::write_zeros, stub_no_zeros)]
 fn write_contract_fat32_c0() {
     write_contract(bpb_fat32(), false, 0);
 }
@@ -440,6 +452,7 @@ fn write_contract_fat32_c0() {
 #[kani::proof]
 #[kani::unwind(12)]
 #[kani::stub(crate::table::alloc_cluster, stub_alloc_cluster)]
+#[kani::stub(crate::fs::write_zeros, stub_no_zeros)]
 fn write_contract_fat32_c1() {
     write_contract(bpb_fat32(), false, 1);
 }
@@ -450,6 +463,7 @@ fn write_contract_fat32_c1() {
 #[kani::proof]
 #[kani::unwind(12)]
 #[kani::stub(crate::table::alloc_cluster, stub_alloc_cluster)]
+#[kani::stub(crate::fs::write_zeros, stub_no_zeros)]
 fn write_contract_fat32_c2() {
     write_contract(bpb_fat32(), false, 2);
 }
@@ -460,6 +474,7 @@ fn write_contract_fat32_c2() {
 #[kani::proof]
 #[kani::unwind(12)]
 #[kani::stub(crate::table::alloc_cluster, stub_alloc_cluster)]
+#[kani::stub(crate::fs::write_zeros, stub_no_zeros)]
 fn write_contract_huge_c0() {
     write_contract(bpb_fat32_huge(), false, 0);
 }
@@ -470,6 +485,7 @@ fn write_contract_huge_c0() {
 #[kani::proof]
 #[kani::unwind(12)]
 #[kani::stub(crate::table::alloc_cluster, stub_alloc_cluster)]
+#[kani::stub(crate::fs::write_zeros, stub_no_zeros)]
 fn write_contract_huge_c1() {
     write_contract(bpb_fat32_huge(), false, 1);
 }
@@ -480,6 +496,7 @@ fn write_contract_huge_c1() {
 #[kani::proof]
 #[kani::unwind(12)]
 #[kani::stub(crate::table::alloc_cluster, stub_alloc_cluster)]
+#[kani::stub(crate::fs::write_zeros, stub_zeros_contract)]
 fn write_contract_dir_c1() {
     write_contract(bpb_fat32(), true, 1);
 }
@@ -669,6 +686,7 @@ fn flush_contract() {
 #[kani::proof]
 #[kani::unwind(14)]
 #[kani::stub(crate::table::alloc_cluster, stub_alloc_cluster)]
+#[kani::stub(crate::fs::write_zeros, stub_no_zeros)]
 fn file_ops_faults() {
     let bpb = bpb_fat16();
     let cs = bpb.cluster_size();
